@@ -13,6 +13,18 @@ static mInstance inst;
 wasmMemory* wasiMemory(void* instance) { return m_memory((mInstance*)instance); }
 void trap(Trap t) { fprintf(stderr, "trap %d\n", (int)t); abort(); }
 extern char** environ;
+#ifdef VF_IMPORTED_MEMORY
+/* the module imports its shared memory (the --import-memory layout of wasi-threads programs) */
+static wasmMemory* vf_shared;
+static void* vf_resolve(const char* module, const char* name) {
+    (void)module;
+    if (strcmp(name, "memory") == 0) { if (!vf_shared) vf_shared = wasmMemoryAllocate(1, 1, true); return vf_shared; }
+    return NULL;
+}
+#define VF_RESOLVER vf_resolve
+#else
+#define VF_RESOLVER NULL
+#endif
 
 typedef struct { int t; int k; U32* rets; } Arg;
 static void* worker(void* p) {
@@ -26,7 +38,7 @@ int main(int argc, char** argv) {
     pthread_t th[64]; Arg args[64];
     (void)argc;
     if (!wasiInit(1, argv, environ)) return 2;
-    mInstantiate(&inst, NULL);
+    mInstantiate(&inst, VF_RESOLVER);
     for (i = 0; i < T; i++) { args[i].t = i; args[i].k = K; args[i].rets = (U32*)calloc((size_t)K, sizeof(U32)); pthread_create(&th[i], NULL, worker, &args[i]); }
     for (i = 0; i < T; i++) pthread_join(th[i], NULL);
     total = 0;
